@@ -5,7 +5,10 @@ import warnings
 from .. import gen, canon
 from ..ref import urlcss
 from ..common import short
+from . import c09
 from .c09 import gen_url, CSS_VALUES, multi_uri_input
+
+_URI_LOCAL_NAMES = frozenset(ln for (_, ln) in c09.PINNED_URI_ATTRS)
 
 LEVEL = "exploration"
 TECHNIQUE = ("runtime monitoring of the composition parse -> sanitize -> serialize -> re-parse: every node of the re-parsed "
@@ -216,7 +219,9 @@ def judge(ctx, case):
                 ctx.violation("forbidden-attribute-reappeared:%s" % key[1][:20], case,
                               "attribute %r on %s in the re-parsed tree; output %s" % (key, name, short(out, 500)))
                 return
-            if key in S.attr_val_is_uri or key[1] in ("href", "src", "action", "base"):
+            # URI-valued attributes: the set pinned in C09 (not read from the library's own table), by local name as
+            # well because the serializer writes namespaced attributes by local name
+            if key in c09.PINNED_URI_ATTRS or key in S.attr_val_is_uri or key[1] in _URI_LOCAL_NAMES:
                 sch = urlcss.url_scheme(v)
                 if sch is not None:
                     ctx.count("uri_values_with_scheme_in_reparsed_tree")
